@@ -2,6 +2,7 @@
 from absint import Prover, analyse, Linearizer
 from lin import Lin, entails
 from paths import explore
+import stdalg
 from sym import fmt, walk
 from callgraph import CallGraph
 from rules.common import path_calls, ret_kind
@@ -34,6 +35,13 @@ def outcome(rv):
             if x[0] == 'agg' and x[1].startswith('raw::error::Error::'):
                 return x[1].rsplit('::', 1)[-1]
         return 'Err?'
+    if rk == 'residual':
+        # `opt.ok_or(Error::X)?` : the error is the ok_or argument travelling through branch / from_residual
+        for x in walk(rv):
+            if x[0] == 'call' and isinstance(x[1], str) and x[1].endswith(('Option::<T>::ok_or', 'Option::<T>::ok_or_else')):
+                for y in walk(x[2][1]):
+                    if y[0] == 'agg' and y[1].startswith('raw::error::Error::'):
+                        return y[1].rsplit('::', 1)[-1]
     return rk
 
 
@@ -242,9 +250,9 @@ def r10_5(ctx):
             continue
         ck = None
         for d in p.decisions:
-            e = pv.inline(d[2])
+            e, val = stdalg.canon_decision(pv.inline(d[2]), d[3])
             if e[0] == 'discr' and e[1][0] == 'field' and e[1][2] == 'checksum':
-                ck = d[3]
+                ck = val
         o = outcome(p.ret())
         if ck is None:
             ctx.undecided(R, 'path', 'a path of verify() returns %s without inspecting the stored checksum' % o, fn=f)
